@@ -195,8 +195,10 @@ func directC03Modes(g *G, rep *Report) {
 	directC03Msg(g, rep)
 	directC03SharedNs(g, rep)
 	directC03Nested(g, rep)
-	nsAttrs := []string{"", "true", "false", "contextual"}
-	tAttrs := []string{"", "true", "false", "contextual"}
+	// "deprecated-contextual" is the older spelling of "contextual": an attribute like any other, so it overrides a
+	// namespace's "false" (seeded C03-19: it was turned into "unspecified")
+	nsAttrs := []string{"", "true", "false", "contextual", "deprecated-contextual"}
+	tAttrs := []string{"", "true", "false", "contextual", "deprecated-contextual"}
 	attr := func(a string) string {
 		if a == "" {
 			return ""
